@@ -14,6 +14,9 @@ pub fn segseg_case(cx: &mut Ctx, n: u64, case: &Value) {
     if cx.wants("C03") {
         crate::ops_kernel::lattice_orient(cx, case);
     }
+    if cx.wants("C02") {
+        segseg_c02(cx, case);
+    }
     if !cx.wants("C11") {
         return;
     }
@@ -115,5 +118,44 @@ pub fn segseg_case(cx: &mut Ctx, n: u64, case: &Value) {
         let w = kind != "none";
         if c != d || a != b { if ix == Ok((w, w, w)) { cx.ok("agrees_with_intersects_other_forms"); } else {
             cx.bad("C11", "agrees_with_intersects_other_forms", case, json!({"what": "Geometry::Line(ab) / LineString(cd) intersects", "got": format!("{ix:?}"), "want": w})); } }
+    }
+}
+
+/// C02 on every pair of lattice segments (zero-length ones included): `intersects` in every spelling of the two operands must say
+/// what the exact relation of Gen_Segments says (kind != none), whichever operand is degenerate and whichever comes first.
+fn segseg_c02(cx: &mut Ctx, case: &Value) {
+    use geo::{Geometry, LineString, MultiLineString, Point};
+    let (a, b, c, d) = (coord(&case["a"]), coord(&case["b"]), coord(&case["c"]), coord(&case["d"]));
+    let meets = case["rel"]["kind"].as_str().unwrap() != "none";
+    cx.count("segseg_c02_cases", 1);
+    if a == b || c == d { cx.count("segseg_c02_degenerate", 1); }
+    let mut chk = |cx: &mut Ctx, what: &str, got: Result<bool, String>| {
+        if got == Ok(meets) { cx.ok("segment_pair_intersects"); } else { cx.bad("C02", "segment_pair_intersects", case, json!({"what": what, "got": format!("{got:?}"), "want": meets})); }
+    };
+    let (p, q) = (Line::new(a, b), Line::new(c, d));
+    let (pr, qr) = (Line::new(b, a), Line::new(d, c));
+    chk(cx, "Line(ab).intersects(Line(cd))", guard(|| p.intersects(&q)));
+    chk(cx, "Line(cd).intersects(Line(ab))", guard(|| q.intersects(&p)));
+    chk(cx, "Line(ba).intersects(Line(dc))", guard(|| pr.intersects(&qr)));
+    chk(cx, "Line(dc).intersects(Line(ab))", guard(|| qr.intersects(&p)));
+    let (lp, lq) = (LineString::new(vec![a, b]), LineString::new(vec![c, d]));
+    let (lp2, lq2) = (LineString::new(vec![a, a, b]), LineString::new(vec![c, d, d]));
+    chk(cx, "LineString(ab).intersects(Line(cd))", guard(|| lp.intersects(&q)));
+    chk(cx, "Line(cd).intersects(LineString(ab))", guard(|| q.intersects(&lp)));
+    chk(cx, "LineString(ab).intersects(LineString(cd))", guard(|| lp.intersects(&lq)));
+    chk(cx, "LineString(aab).intersects(Line(cd))", guard(|| lp2.intersects(&q)));
+    chk(cx, "LineString(cdd).intersects(Line(ab))", guard(|| lq2.intersects(&p)));
+    chk(cx, "LineString(aab).intersects(LineString(cdd))", guard(|| lp2.intersects(&lq2)));
+    chk(cx, "MultiLineString[ab].intersects(Line(cd))", guard(|| MultiLineString::new(vec![lp.clone()]).intersects(&q)));
+    chk(cx, "Geometry::Line(ab).intersects(Geometry::Line(cd))", guard(|| Geometry::Line(p).intersects(&Geometry::Line(q))));
+    chk(cx, "Geometry::Line(cd).intersects(Geometry::LineString(aab))", guard(|| Geometry::Line(q).intersects(&Geometry::LineString(lp2.clone()))));
+    if a == b {
+        chk(cx, "Point(a).intersects(Line(cd))", guard(|| Point(a).intersects(&q)));
+        chk(cx, "Line(cd).intersects(Point(a))", guard(|| q.intersects(&Point(a))));
+        chk(cx, "Line(cd).intersects(Coord a)", guard(|| q.intersects(&a)));
+    }
+    if c == d {
+        chk(cx, "Line(ab).intersects(Point(c))", guard(|| p.intersects(&Point(c))));
+        chk(cx, "Point(c).intersects(LineString(aab))", guard(|| Point(c).intersects(&lp2)));
     }
 }
